@@ -463,7 +463,7 @@ def eff_coq(e):
 
 def script_coq(s):
     effs, fin = s
-    f = {"ok": "ROk", "e": "RErr", "f": "RErr", "p": "RPanic", "q": "RPanic", "z": "RPanic"}[fin[0]]
+    f = {"ok": "ROk", "e": "RErr", "f": "RErr", "p": "RPanic", "q": "RPanic", "z": "RPanic", "y": "RPanic"}[fin[0]]
     f += "" if fin[0] == "ok" else (f" {UNKNOWN_PANIC}" if fin[0] == "z" else f" {fin[1]}")
     return "([" + "; ".join(eff_coq(e) for e in effs) + f"], {f})"
 
@@ -1066,6 +1066,43 @@ def gen_wire_handler_fails(rng):
     return {"actors": actors, "msgs": msgs, "ops": ops}
 
 
+def gen_sync_panic(rng):
+    """mode send, default build: a callback written as `fn cb(..) -> impl Future` panics SYNCHRONOUSLY while it
+    builds its future (`/y<k>`, host HY; no effects in such a script).  C04: the panic must not escape the actor:
+    join handle completes normally, ActorFailed with the text.  Model: an ordinary RPanic k.
+    Off unless RV_SYNC_PANIC=1: on the tree as of this commit do_post_start / do_post_stop call the callback
+    OUTSIDE their catch_unwind, so `/y` in post_start or post_stop escapes (JOIN-PANIC, supervisor told
+    "actor_task_cancelled"); handle and handle_supervisor_evt are inside the loop's catch_unwind and are fine."""
+    n = rng.choice([1, 2, 2])
+    where = rng.choice(["ps", "stop", "msg", "sup" if n > 1 else "msg"])
+    y = ([], ("y", rng.choice([5, 6, 7])))
+    ok = ([], ("ok",))
+    actors = [{"pre": ok, "ps": ok, "stop": ([("t",)], ("ok",)),
+               "sup": (y if where == "sup" else ([("t",)], ("ok",))) if n > 1 else None, "link": None}]
+    for i in range(1, n):
+        actors.append({"pre": ok, "ps": ok, "stop": ([("t",)], ("ok",)), "sup": None, "link": 0})
+    victim = 0 if where == "sup" else n - 1
+    if where == "ps":
+        actors[victim]["ps"] = y
+    if where == "stop":
+        actors[victim]["stop"] = y
+    msgs = {1: (y if where == "msg" else ([("t",)], ("ok",))), 2: ([("t",)], ("ok",)), 3: ok, 4: ok}
+    ops = []
+    for i in range(n):
+        ops += [("spawn", i), ("settle",)]
+    if where == "msg":
+        ops += [("send", victim, 2), (rng.choice(["send", "sends"]), victim, 1), ("send", victim, 2), ("settle",)]
+    if where == "stop":
+        ops += [rng.choice([("stop", victim, None), ("stop", victim, 10), ("drain", victim)]), ("settle",)]
+    if where == "sup":
+        ops += [("send", 0, 2), ("settle",)]
+    ops += [("stop", victim, None), ("settle",)]
+    return {"actors": actors, "msgs": msgs, "ops": ops}
+
+
+SYNC_PANIC = os.environ.get("RV_SYNC_PANIC", "") == "1"
+
+
 def gen_remote(rng, k, focus):
     """scenarios for mode remote-shim (every actor has a remote ActorId and gets its messages through
     handle_serialized): the families of the Send mode except `spawnx`, gen_kill_parked_handler (1 in 10),
@@ -1142,6 +1179,8 @@ def run_loop_check(chk, oracle_fn, focus, what, accept=lambda o: o == "true", co
             scs.append(gen_wire_handler_fails(chk.rng))
         elif k % 20 == 11:
             scs.append(gen_boom(chk.rng))
+        elif k % 20 == 1 and SYNC_PANIC:
+            scs.append(gen_sync_panic(chk.rng))
         elif k % 8 == 7:
             scs.append(gen_abort_in_post_stop(chk.rng))
         elif k % 5 == 4:
